@@ -27,11 +27,14 @@ CHECK = {
                   "only findLongestCacheSlot, findBestCacheSlot (lc == nil, as the package's own tests do), countCommonPrefix and ShiftDiscard are "
                   "(differentially against ollamarunner's exported LoadCacheSlot/ShiftCacheSlot/ShiftDiscard with a cache-less model, plus the "
                   "never-in-use / common-prefix / forked-prefix predicates). Known findings are steered around only when listed: Remove(id,0,-1) "
-                  "answered as 'clear', merged defrag moves abandon the case, sliding-window cache told a larger maxBatch, CanResume denied right "
-                  "after CopyPrefix, num_keep 0 for sliding-window requests whose shift would keep an evicted prefix; replays always run strict.",
+                  "answered as 'clear' (shift-reset-remove-minus-one), sliding-window cache told a larger maxBatch (swa-cache-undersized), "
+                  "num_keep 0 for sliding-window requests whose shift would keep an evicted prefix (swa-shift-keeps-evicted-prefix); replays "
+                  "always run strict. Two kvcache findings owned by C06 that this engine also hit (defrag-merged-move-swaps-cells, "
+                  "swa-canresume-ignores-evicted-window-start) are fixed in /repo (4df0323fc, 69c0d024e); their switches (abandon the case at a "
+                  "merged defrag move / deny CanResume right after CopyPrefix) remain in the engine but are off unless those slugs are listed.",
     "design_ref": "DESIGN.md section 2.1 (shim), section 3 'Engine runnersim' / C07, section 4 row 10",
     "targets": [{"name": "TestC07History", "build": 0,
-                 "quick": {"cases": 2500, "shards": 8, "soft_s": 45},
+                 "quick": {"cases": 8000, "shards": 8, "soft_s": 45},
                  "thorough": {"cases": 200000, "shards": 16, "soft_s": 400}},
                 {"name": "TestC07LlamaSlots", "build": 1,
                  "quick": {"cases": 5000, "shards": 1, "soft_s": 30},
